@@ -92,7 +92,7 @@ for pid in sorted(props):
                 ob = det[0][2].split(";")[0]
                 res = "reported by the check of %s: `%s`" % (det[0][0], ob)
             elif rs:
-                res = "**missed** (see the note on coverage limits below)"
+                res = "**missed** (outside what is under contract; see §7 and §9.3)"
             else:
                 res = "not yet run"
             out.append("* `%s` %s — %s" % (n, title, res))
